@@ -40,7 +40,7 @@ fn cmd_tree(req: &Value) -> Value {
     let r = prqlc::prql_to_pl_tree(&tree)
         .and_then(|pl| {
             stage = "resolve";
-            prqlc::pl_to_rq_tree(pl, &main_path, &["db".to_string()]).map_err(|e| e.composed(&tree))
+            prqlc::pl_to_rq_tree(pl, &main_path, &[prqlc::semantic::NS_DEFAULT_DB.to_string()]).map_err(|e| e.composed(&tree))
         })
         .and_then(|rq| {
             stage = "sql";
@@ -55,8 +55,9 @@ fn cmd_tree(req: &Value) -> Value {
     v
 }
 
-// c13lex {src}: prql_to_tokens errors (not composed: raw char spans of convert_lexer_error) and,
-// when lexing succeeds, the byte spans of the tokens (what the parser's map_span reads).
+// c13lex {src}: prql_to_tokens errors (composed against the one-file tree since d650e1d: char spans of
+// convert_lexer_error with source id 1, location, display) and, when lexing succeeds, the byte spans of the
+// tokens (what the parser's map_span reads).
 fn cmd_lexspans(req: &Value) -> Value {
     match prqlc::prql_to_tokens(crate::s(req, "src")) {
         Ok(t) => {
@@ -74,10 +75,49 @@ fn cmd_lexspans(req: &Value) -> Value {
     }
 }
 
+// c13compose {files:[[path,content],..], spans:[[start,end,source_id],..]}
+//   ErrorMessages::composed on a message made from Error::new_simple("x").with_span(span) (through
+//   From<Error> for ErrorMessages), against SourceTree::new(files): one answer per span,
+//   {span: {..}|null, location: {..}|null, display: bool} or {panic: ..} (the assert in `composed`).
+fn cmd_compose(req: &Value) -> Value {
+    use prqlc::WithErrorInfo;
+    let files: Vec<(PathBuf, String)> = match req.get("files") {
+        Some(Value::Array(a)) => a
+            .iter()
+            .filter_map(|p| {
+                let p = p.as_array()?;
+                Some((PathBuf::from(p.first()?.as_str()?), p.get(1)?.as_str()?.to_string()))
+            })
+            .collect(),
+        _ => vec![],
+    };
+    let tree = prqlc::SourceTree::new(files, None);
+    let mut out = Vec::new();
+    if let Some(Value::Array(spans)) = req.get("spans") {
+        for sp in spans {
+            let g = |i: usize| sp.get(i).and_then(|v| v.as_u64()).unwrap_or(0);
+            let span = prqlc::Span { start: g(0) as usize, end: g(1) as usize, source_id: g(2) as u16 };
+            let tree = &tree;
+            out.push(crate::guarded(move || {
+                let e = prqlc::Error::new_simple("x").with_span(Some(span));
+                let m = prqlc::ErrorMessages::from(e).composed(tree);
+                let m = &m.inner[0];
+                json!({
+                    "span": m.span.map(|s| json!({"start": s.start, "end": s.end, "source_id": s.source_id})),
+                    "location": m.location.as_ref().map(|l| json!({"start": [l.start.0, l.start.1], "end": [l.end.0, l.end.1]})),
+                    "display": m.display.is_some(),
+                })
+            }));
+        }
+    }
+    json!({ "ok": out })
+}
+
 pub fn dispatch(cmd: &str, req: &Value) -> Option<Value> {
     match cmd {
         "c13tree" => Some(cmd_tree(req)),
         "c13lex" => Some(cmd_lexspans(req)),
+        "c13compose" => Some(cmd_compose(req)),
         _ => None,
     }
 }
